@@ -234,6 +234,9 @@ func (u *Unit) contractCall(st *State, instr ssa.Instruction, fs *FuncSpec, name
 	if fs.Unlocked {
 		u.checkUnlocked(st, instr, site, name)
 	}
+	if fs.Effect == "iterate" {
+		return u.iterateCall(st, instr, fs, name, args, sig)
+	}
 	pre := st.snapshot()
 	switch fs.Effect {
 	case "pure", "opaque":
@@ -252,6 +255,9 @@ func (u *Unit) contractCall(st *State, instr ssa.Instruction, fs *FuncSpec, name
 		}
 		u.unsupportedf("unknown effect %q in contract of %s", fs.Effect, name)
 		u.havocAll(st, name)
+	}
+	for _, mclause := range fs.Modifies {
+		u.havocGhostEntry(st, env, mclause)
 	}
 	var outs []callRes
 	if fs.MayPanic {
@@ -290,6 +296,26 @@ func (u *Unit) contractCall(st *State, instr ssa.Instruction, fs *FuncSpec, name
 		}
 	}
 	for _, c := range fs.Ensures {
+		if sv, ok := u.ownedExpr(env2, c); ok {
+			// the callee hands over ownership of the slice's backing array
+			if st2, isSl := sv.Typ.Underlying().(*types.Slice); isSl {
+				sl := u.lower(st, sv.V, sv.Typ)
+				arr := app(SInt, "sarr", sl)
+				if strings.HasPrefix(arr.S, "(") {
+					c := u.fresh("owned", SInt)
+					st.assume(Eq(c, arr))
+					arr = c
+				}
+				{
+					for _, p := range st.private {
+						st.assume(Neq(arr, p.ref))
+					}
+					st.private = append(st.private, privRef{arr, "arr:" + string(u.sortOf(st2.Elem()))})
+					u.note("ownership: the slice returned by " + name + " is not retained or aliased by the callee")
+				}
+			}
+			continue
+		}
 		st.assume(u.evalBool(env2, c.Expr))
 	}
 	if fs.Trusted || fs.Kind != "func" {
@@ -346,6 +372,15 @@ func (u *Unit) havocAllExcept(st *State, why string, direct map[string]Sort) {
 		}
 		_ = oa
 		u.allocMonotone(st, oa, na)
+	}
+	for _, gn := range sortedKeys(map[string]*GhostHeap(u.eng.spec.GhostHeaps)) {
+		gh := u.eng.spec.GhostHeaps[gn]
+		hn := "G!" + gh.Name
+		if gh.Mono == "" || newHeaps[hn].S == "" || newHeaps[hn].S == oldHeaps[hn].S {
+			continue
+		}
+		u.declFun(gh.Mono, fmt.Sprintf("(%s %s) Bool", gh.Val, gh.Val))
+		st.assume(T{fmt.Sprintf("(forall ((k!q %s)) (! (%s (select %s k!q) (select %s k!q)) :pattern ((select %s k!q))))", gh.Key, gh.Mono, newHeaps[hn].S, oldHeaps[hn].S, newHeaps[hn].S), SBool})
 	}
 	if direct != nil {
 		oh, nh := map[string]T{}, map[string]T{}
@@ -534,6 +569,19 @@ func (u *Unit) event(st *State, name string, args []Value) []string {
 		cur, ok := st.cnt[cn]
 		if !ok {
 			cur = u.counterInit(cn, SInt)
+		}
+		if ev.Record {
+			for i, srt := range ev.RecordArgs {
+				if i >= len(args) {
+					continue
+				}
+				at, isT := args[i].(T)
+				if !isT || at.Sort != srt {
+					continue
+				}
+				key := fmt.Sprintf("seq!%s!%d", ev.Name, i)
+				st.cnt[key] = Store(u.seqArray(st, key, srt), cur, at)
+			}
 		}
 		st.cnt[cn] = Add(cur, IntLit(1))
 		st.lastArgs[ev.Name] = args
@@ -1176,4 +1224,190 @@ func (u *Unit) havocFields(st *State, fs *FuncSpec, env *SpecEnv) {
 			u.unsupportedf("effect fields: no field %s", f)
 		}
 	}
+}
+
+// havocGhostEntry implements `modifies NAME(keyexpr)`.
+func (u *Unit) havocGhostEntry(st *State, env *SpecEnv, clause string) {
+	i := strings.Index(clause, "(")
+	if i < 0 || !strings.HasSuffix(clause, ")") {
+		u.unsupportedf("bad modifies clause %q", clause)
+		return
+	}
+	gh, ok := u.eng.spec.GhostHeaps[clause[:i]]
+	if !ok {
+		u.unsupportedf("modifies: unknown ghost heap %q", clause[:i])
+		return
+	}
+	se, err := parseSE(clause[i+1 : len(clause)-1])
+	if err != nil {
+		u.unsupportedf("modifies: %v", err)
+		return
+	}
+	k := u.evalTerm(env, se)
+	hn := "G!" + gh.Name
+	h := u.heapGet(st.view(), hn, ArrSort(gh.Key, gh.Val))
+	nv := u.fresh("ghost."+gh.Name, gh.Val)
+	if gh.Mono != "" {
+		st.assume(u.ghost(gh.Mono, SBool, nv, Select(h, k)))
+	}
+	u.heapSet(st, hn, Store(h, k, nv))
+}
+
+// seqArray returns the current ghost array of recorded arguments.
+func (u *Unit) seqArray(st *State, key string, srt Sort) T {
+	if arr, ok := st.cnt[key]; ok {
+		return arr
+	}
+	name := smtName(key) + "@0"
+	u.decls.Add(name, fmt.Sprintf("(declare-const %s %s)", name, ArrSort(SInt, srt)))
+	arr := T{name, ArrSort(SInt, srt)}
+	st.cnt[key] = arr
+	return arr
+}
+
+// iterateCall models the call it(yield) of an iterator value (iter.Seq2) by
+// the iterator protocol over the ghost sequence seqLen(it)/seqAt(it,k)/
+// seqErr(it):  yield(seqAt(it,0),nil), yield(seqAt(it,1),nil), ... stopping
+// when yield returns false; after the last element, if seqErr(it) != nil,
+// one final yield(nil, seqErr(it)).  The (inlined) yield body is cut like a
+// loop by the caller's `iterate invariant` clauses (which may mention iterk,
+// the number of elements yielded so far).
+func (u *Unit) iterateCall(st *State, instr ssa.Instruction, fs *FuncSpec, name string, args []Value, sig *types.Signature) []callRes {
+	u.note("iterator protocol (iterates): an iter.Seq2 value calls yield on the elements of its ghost sequence in order, stops when yield returns false, and reports failure by one final yield(nil, err); proved for ebu's own iterators, assumed for foreign streamers")
+	if len(args) < 2 {
+		u.unsupportedf("iterate: expected it(yield)")
+		return one(st, nil)
+	}
+	it := u.lower(st, args[0], nil)
+	y, ok := args[1].(*Closure)
+	if !ok {
+		u.unsupportedf("iterate: yield is not a function literal of the caller")
+		u.havocAll(st, "iterate")
+		return one(st, nil)
+	}
+	u.declFun("seqLen", "(Int) Int")
+	u.declFun("seqAt", "(Int Int) Int")
+	u.declFun("seqErr", "(Int) Iface")
+	seqLen := app(SInt, "seqLen", it)
+	st.assume(Le(IntLit(0), seqLen))
+	cfs := u.specOfFrame(st)
+	var inv []*Clause
+	if cfs != nil {
+		inv = cfs.IterInv
+	}
+	tag := "iterate"
+	evalInv := func(s *State, k T, c *Clause) T {
+		env := u.newEnv(s)
+		env.names = map[string]SV{"iterk": {V: k, Typ: types.Typ[types.Int]}, "iterator": {V: it}}
+		return u.evalBool(env, c.Expr)
+	}
+	for _, c := range inv {
+		u.addOblig(st, tag+".inv."+labelOr(c, "inv")+".entry", c.Text, clauseProps(c, cfs), evalInv(st, IntLit(0), c), instr, "iterator-call invariant holds before the first yield: "+c.Text)
+	}
+	// havoc what the yield body may modify
+	eff := u.effectsOfFunc(y.fn, map[*ssa.Function]bool{})
+	for i, fv := range y.fn.FreeVars {
+		if eff.roots[fv] && i < len(y.binds) {
+			if p, ok := y.binds[i].(*Ptr); ok && p.kind == pCell && p.cell.promoted == nil {
+				cur := st.cells[p.cell]
+				if _, isT := cur.(T); isT || cur == nil {
+					st.cells[p.cell] = u.freshOfType(st, "iter."+p.cell.name, p.cell.typ)
+				}
+			}
+		}
+	}
+	if eff.all {
+		for _, n := range sortedKeys(eff.heaps) {
+			u.noteHeap(n, eff.heaps[n])
+		}
+		u.havocAllExcept(st, tag, eff.heaps)
+	} else {
+		var names []string
+		for _, n := range sortedKeys(eff.heaps) {
+			u.noteHeap(n, eff.heaps[n])
+			names = append(names, n)
+		}
+		if len(names) > 0 {
+			u.havocNamesFrame(st, names, tag, false)
+		}
+	}
+	for k, prev := range st.ctxDone {
+		d := u.fresh("ctxdone.iter", SBool)
+		st.assume(Implies(prev, d))
+		st.ctxDone[k] = d
+	}
+	names := map[string]bool{}
+	u.callNamesInBlocks(y.fn, nil, map[*ssa.Function]bool{}, names)
+	for _, ev := range u.eng.spec.Events {
+		hit := false
+		for n := range names {
+			if eventMatches(ev.Pattern, n) {
+				hit = true
+			}
+		}
+		if !hit {
+			continue
+		}
+		cn := "cnt!" + ev.Name
+		cur, ok := st.cnt[cn]
+		if !ok {
+			cur = IntLit(0)
+		}
+		nv := u.fresh("iter."+cn, SInt)
+		st.assume(Le(cur, nv))
+		st.cnt[cn] = nv
+		delete(st.lastArgs, ev.Name)
+		if ev.Record {
+			for i, srt := range ev.RecordArgs {
+				st.cnt[fmt.Sprintf("seq!%s!%d", ev.Name, i)] = u.fresh("iter.seq", ArrSort(SInt, srt))
+			}
+		}
+	}
+	k := u.fresh("iterk", SInt)
+	st.assume(And(Le(IntLit(0), k), Le(k, seqLen)))
+	for _, c := range inv {
+		st.assume(evalInv(st, k, c))
+	}
+	var outs []callRes
+	// A: one more element
+	sa := st.clone()
+	sa.assume(Lt(k, seqLen))
+	elem := app(SInt, "seqAt", it, k)
+	sa.assume(Neq(elem, IntLit(0)))
+	u.assumeAllocated(sa, elem)
+	for _, r := range u.inline(sa, y.fn, []Value{elem, T{"nil_iface", SIface}}, y.binds) {
+		if r.panicked {
+			outs = append(outs, r)
+			continue
+		}
+		rv, isT := r.val.(T)
+		if !isT {
+			u.unsupportedf("iterate: yield did not return a bool")
+			continue
+		}
+		if rv.S != "false" {
+			cont := r.st.clone()
+			cont.assume(rv)
+			for _, c := range inv {
+				u.addOblig(cont, tag+".inv."+labelOr(c, "inv")+".preserve", c.Text, clauseProps(c, cfs), evalInv(cont, Add(k, IntLit(1)), c), instr, "iterator-call invariant preserved by one yield: "+c.Text)
+			}
+		}
+		if rv.S != "true" {
+			stop := r.st
+			stop.assume(Not(rv))
+			outs = append(outs, callRes{st: stop})
+		}
+	}
+	// B: exhausted
+	sb := st
+	sb.assume(Eq(k, seqLen))
+	errv := app(SIface, "seqErr", it)
+	sb1 := sb.clone()
+	sb1.assume(Eq(app(SInt, "ity", errv), IntLit(0)))
+	outs = append(outs, callRes{st: sb1})
+	sb.assume(Neq(app(SInt, "ity", errv), IntLit(0)))
+	for _, r := range u.inline(sb, y.fn, []Value{IntLit(0), errv}, y.binds) {
+		outs = append(outs, callRes{st: r.st, panicked: r.panicked})
+	}
+	return outs
 }
